@@ -490,6 +490,12 @@ class XMLSchemaBase(XsdValidator, ElementPathMixin[Union[SchemaType, XsdElement]
         return len(self.elements)
 
     def __copy__(self) -> SchemaType:
+        if self.maps.built:
+            # The components keep referring to the original instance, so the copy cannot
+            # compute its validation status by itself: share the status of the original,
+            # whether or not the original has already been used (and has it cached).
+            _ = self.validation_attempted
+
         schema: SchemaType = object.__new__(self.__class__)
         schema.__dict__.update(
             (k, v.copy() if isinstance(v, (list, dict)) else v)
